@@ -54,3 +54,8 @@ PROPS = {
                         "Message.UnmarshalText's route is covered by the C15 models (parser fields are single-line)"],
     },
 }
+
+# drop-in property tables: bin/props.d/*.py may update PROPS and FAMILIES
+import glob as _glob, os as _os
+for _f in sorted(_glob.glob(_os.path.join(_os.path.dirname(_os.path.abspath(__file__)), "props.d", "*.py"))):
+    exec(compile(open(_f).read(), _f, "exec"), {"PROPS": PROPS, "FAMILIES": FAMILIES, "TRUSTED_BASE": TRUSTED_BASE, "REPLAYER_NOTE": REPLAYER_NOTE})
